@@ -84,6 +84,13 @@ def main():
             import resource
             atexit._clear()
             os.setsid()                     # own process group: the watchdog below can kill helpers too
+            try:                            # if the parent (the watchdog) is killed from outside, e.g. by `timeout`, die too
+                import ctypes
+                ctypes.CDLL("libc.so.6", use_errno=True).prctl(1, signal.SIGKILL)   # PR_SET_PDEATHSIG
+                if os.getppid() == 1:
+                    os._exit(3)
+            except Exception:  # noqa
+                pass
             gb = int(os.environ.get("DRF_CHILD_MEM_GB", "32"))
             try:                            # a runaway allocation must end the case, not the machine
                 resource.setrlimit(resource.RLIMIT_AS, (gb << 30, gb << 30))
